@@ -8,3 +8,7 @@ def run(tier):
 
 def replay(path):
     return thr_main.replay("C05", path)
+
+
+def selftest():
+    return thr_main.selftest("C05")
